@@ -133,3 +133,25 @@ Definition exn_error_name (e : outcome) : string :=
   | OHandled _ => "pypyr.errors.HandledError"
   | _ => ""
   end.
+
+(** a caught exception object is an outcome of the model *)
+Notation exn := outcome (only parsing).
+
+(** loop state held on [self] ([for_counter]) and on its decorators ([while_counter],
+    [retry_counter]) while the step body runs; read by [reset_context_counters].  (Before a loop
+    has started the Python attributes hold 0 / None / None: the theorems about the generated
+    [reset_context_counters] assume the loops of the step's own decorators are running.) *)
+Definition live_while (k : counters) : Z := match k_while k with Some n => n | None => 0%Z end.
+Definition live_for (k : counters) : val := match k_for k with Some v => v | None => VNone end.
+Definition live_retry (k : counters) : Z := match k_retry k with Some n => n | None => 0%Z end.
+
+(** [call.original_config] of a caught Call: (key, the caller's config object) *)
+Definition exn_cfg_key (o : outcome) : string :=
+  match exn_cof o with Some c => c_key c | None => "" end.
+Definition exn_cfg_val (o : outcome) : val :=
+  match exn_cof o with Some c => c_orig c | None => VNone end.
+
+(** [if context.get(k) is not v: context[k] = v] — [same a b] stands for Python's [a is b] *)
+Definition write_unless_same (same : val -> val -> bool) (k : string) (v : val) (d : dict) : dict :=
+  let cur := match sget k d with Some x => x | None => VNone end in
+  if same cur v then d else sset k v d.
